@@ -1,6 +1,6 @@
 (* C06 - cancellation is final, contained, and safe against late responses.  Statements only. *)
 From Coq Require Import List Arith Bool.
-From Crux Require Import Rt.Lang Rt.Rt Rt.Host Rt.Check Rt.Frame Rt.Props.
+From Crux Require Import Rt.Lang Rt.Rt Rt.Host Rt.Check Rt.Frame Rt.Props Rt.Silent.
 Import ListNotations.
 
 (* Full statement (kept visible): after an abort / task abort / request drop, no output whose origin
@@ -26,6 +26,20 @@ Proof. exact was_aborted_add. Qed.
 Theorem C06_aborted_never_polled : forall F G cid H,
   was_aborted cid H = true -> rsettle (step_funs F) cid H = rsettle (step_funs G) cid H.
 Proof. exact settle_aborted_no_poll. Qed.
+
+(* Silent, at every nesting level: once a command X is aborted, no step of the runtime - settling or
+   polling ANY command: X itself, the command hosting it, commands nested in it, siblings - ever adds an
+   effect or an event to X's output queues; what is already there can only be taken or dropped.  For
+   every fuel and every heap (no well-formedness assumption), for aborts raised by the shell or by a
+   task of the command itself. *)
+Theorem C06_aborted_outputs_only_shrink_settle : forall X fuel cid H H',
+  X < length (cmds H) -> was_aborted X H = true -> settle fuel cid H = Some H' ->
+  is_suffix (c_eff (gcmd X H')) (c_eff (gcmd X H)) /\ is_suffix (c_evs (gcmd X H')) (c_evs (gcmd X H)).
+Proof. exact aborted_outputs_only_shrink_settle. Qed.
+Theorem C06_aborted_outputs_only_shrink_poll_next : forall X fuel cid w H r H',
+  X < length (cmds H) -> was_aborted X H = true -> poll_next fuel cid w H = Some (r, H') ->
+  is_suffix (c_eff (gcmd X H')) (c_eff (gcmd X H)) /\ is_suffix (c_evs (gcmd X H')) (c_evs (gcmd X H)).
+Proof. exact aborted_outputs_only_shrink_poll_next. Qed.
 
 (* A late resolution is an ordinary value, never a panic, in the model: Resolve::resolve is total. *)
 Theorem C06_late_resolve_total : forall e v H, exists code e' H', resolve_req e v H = (code, e', H') /\ code <= 2.
